@@ -170,6 +170,11 @@ structure Sess where
   nextId : Nat := 0
   nextHandle : Nat := 0
   halted : Bool := false
+  encXor : Nat := 0           -- the calculator given to the encapsulator: default CRC xor this constant
+  decXor : Nat := 0           -- … and to the decapsulator
+
+/-- the calculator of the harness: the default CRC-32 xor-ed with a constant -/
+def xorCrc (k : Nat) : CrcFn := fun pdu pt tl label => (defaultCrc pdu pt tl label) ^^^ k
 
 def Sess.mgrFn (s : Sess) : MgrFn :=
   match s.mgrKind with
@@ -287,7 +292,7 @@ def fmtProv (r : Res MemErr Unit) (id : Nat) : String :=
 def isPanic (out : String) : Bool := out.startsWith "panic"
 
 def doDecap (s : Sess) (d : Dec) (bytes : Bytes) : String × Sess :=
-  let o := decap defaultCrc s.mgrFn d bytes
+  let o := decap (xorCrc s.decXor) s.mgrFn d bytes
   let s := own { s with dec := some o.st } (handedOut o)
   (fmtDecRes o ++ " | " ++ fmtDec o.st, s)
 
@@ -297,7 +302,7 @@ def doWalk (s : Sess) (d : Dec) (bytes : Bytes) : String × Sess :=
     | 0 => (("fuel" :: acc), s, d)
     | fuel + 1 =>
       if rem.isEmpty then (acc, s, d) else
-      let o := decap defaultCrc s.mgrFn d rem
+      let o := decap (xorCrc s.decXor) s.mgrFn d rem
       let s := own s (handedOut o)
       let acc := fmtDecRes o :: acc
       match o.res with
@@ -376,13 +381,17 @@ def step (s : Sess) (line : String) : String × Sess :=
       | .err .incorrectId => ("err id | -", s)
       | .panic => ("panic | -", { s with halted := true })
     | _, _ => bad
-  | ["enc_new"] => let e := Enc.new; ("ok | " ++ fmtEnc e, { s with enc := e })
+  | ["enc_new"] => let e := Enc.new; ("ok | " ++ fmtEnc e, { s with enc := e, encXor := 0 })
   | ["enc_reset"] => let e := s.enc.reset; ("ok | " ++ fmtEnc e, { s with enc := e })
   | ["enc_disable"] => let e := s.enc.disable; ("ok | " ++ fmtEnc e, { s with enc := e })
   | ["enc_enable"] => let e := s.enc.enable; ("ok | " ++ fmtEnc e, { s with enc := e })
   | ["enc_set_crc"] =>
-    -- `set_crc_calculator(DefaultCrc)`: replaces the calculator, must leave the re-use state alone
-    ("ok | " ++ fmtEnc s.enc, s)
+    -- `set_crc_calculator`: replaces the calculator, must leave the re-use state alone
+    ("ok | " ++ fmtEnc s.enc, { s with encXor := 0 })
+  | ["enc_set_crc", k] =>
+    match k.toNat? with
+    | some k => if k < 4294967296 then ("ok | " ++ fmtEnc s.enc, { s with encXor := k }) else bad
+    | none => bad
   | ["enc_enable_max", n] =>
     match n.toNat? with
     | some n => let e := s.enc.enableMax n; ("ok | " ++ fmtEnc e, { s with enc := e })
@@ -390,7 +399,7 @@ def step (s : Sess) (line : String) : String × Sess :=
   | ["encap", pdu, fid, pt, label, buf, reg] =>
     match parseBS s pdu, fid.toNat?, parseHexNat pt, parseLabel label, parseBS s buf, reg.toNat? with
     | some pdu, some fid, some pt, some label, some buf, some reg =>
-      let o := encap defaultCrc s.enc pdu fid pt label buf
+      let o := encap (xorCrc s.encXor) s.enc pdu fid pt label buf
       let (txt, n, ctx) := fmtEncRes buf o.res o.buf
       let s := { s with enc := o.st, regs := assocSet s.regs reg ⟨o.buf, n⟩,
                         ctxs := match ctx with | some c => assocSet s.ctxs reg c | none => assocDel s.ctxs reg,
@@ -400,7 +409,7 @@ def step (s : Sess) (line : String) : String × Sess :=
   | ["encap_ext", pdu, fid, pt, label, buf, reg, exts] =>
     match parseBS s pdu, fid.toNat?, parseHexNat pt, parseLabel label, parseBS s buf, reg.toNat?, parseExts exts with
     | some pdu, some fid, some pt, some label, some buf, some reg, some exts =>
-      let o := encapExt defaultCrc s.enc pdu fid pt label buf exts
+      let o := encapExt (xorCrc s.encXor) s.enc pdu fid pt label buf exts
       let (txt, n, ctx) := fmtEncRes buf o.res o.buf
       let s := { s with enc := o.st, regs := assocSet s.regs reg ⟨o.buf, n⟩,
                         ctxs := match ctx with | some c => assocSet s.ctxs reg c | none => assocDel s.ctxs reg,
@@ -436,11 +445,22 @@ def step (s : Sess) (line : String) : String × Sess :=
     match slots.toNat?, maxpdu.toNat? with
     | some n, some sz =>
       let d : Dec := ⟨Mem.new n sz, none⟩
-      if mgr = "sig" then ("ok | " ++ fmtDec d, { s with dec := some d, mgrKind := 1, mgr := [] })
+      if mgr = "sig" then ("ok | " ++ fmtDec d, { s with dec := some d, mgrKind := 1, mgr := [], decXor := 0 })
       else match parseMgr mgr with
-        | some t => ("ok | " ++ fmtDec d, { s with dec := some d, mgrKind := if t.isEmpty then 0 else 2, mgr := t })
+        | some t => ("ok | " ++ fmtDec d, { s with dec := some d, mgrKind := if t.isEmpty then 0 else 2, mgr := t, decXor := 0 })
         | none => bad
     | _, _ => bad
+  | ["dec_new", slots, maxpdu, mgr, k] =>
+    match slots.toNat?, maxpdu.toNat?, k.toNat? with
+    | some n, some sz, some k =>
+      if k < 4294967296 then
+        let d : Dec := ⟨Mem.new n sz, none⟩
+        if mgr = "sig" then ("ok | " ++ fmtDec d, { s with dec := some d, mgrKind := 1, mgr := [], decXor := k })
+        else match parseMgr mgr with
+          | some t => ("ok | " ++ fmtDec d, { s with dec := some d, mgrKind := if t.isEmpty then 0 else 2, mgr := t, decXor := k })
+          | none => bad
+      else bad
+    | _, _, _ => bad
   | ["prov", len, fill] =>
     match s.dec, len.toNat?, fill.toNat? with
     | some d, some len, some fill =>
